@@ -17,7 +17,7 @@ TECH = "deterministic simulation with fault injection: real code in a testing/sy
 # id -> (level, design section, text, note)
 CLAIMED = {
  "C02": ("exploration", "5.2", "Seeded histories of valid reports (replays, re-signed variants, capacity-boundary and negative-encoded values) through a duplicating/reordering/dropping UDP fabric into the real server; per (device,slot) reference machine compared on the whole snapshot after every delivery, through stats/sync surfaces, and across a second delivery order; thorough adds exhaustive sequences up to length 4 over a 12-symbol alphabet. Sampling, not proof.",
-         "Trusts go-ethereum secp256k1, testing/synctest, the harness reference model; UDP socket loop is a stub; capacities < 2^56."),
+         "Trusts go-ethereum secp256k1, testing/synctest, the harness reference model; UDP socket loop is a stub; capacities over the whole 64 bit range (the overflow of capacity x 135 was a defect found here and repaired, known_findings.json)."),
 }
 
 CLAIMED.update({
@@ -27,14 +27,14 @@ CLAIMED.update({
          "Trusts the harness model and encoder; WattTime values come from the repo's own test-mode stub."),
  "C04": ("exploration", "5.4", "Generated histories with a graceful restart after seeded prefixes (thorough: after every operation of short histories), 1-3 restarts in a row, clocks requiring 0/1/several catch-up rotations; snapshot before == after on the listed fields, model agreement, idempotence, start-up rotation rule.",
          "Graceful Close()/NewGCAServer only (crashes are C05); server list, migrations and live impact rates are excluded as the property says."),
- "C06": ("exploration", "5.6", "Generated authorization sequences through the real JSON endpoint (new, duplicate, single-field conflicts incl. key reuse, foreign/invalid signatures, banned ids, arbitrary finite float64 coordinates) interleaved with reports, rotations, restarts; equipment/ban reference model compared on snapshot, equipment list (bit exact), recent reports by key, sync by id, live statistics, plus the server's own CheckInvariants after every step.",
+ "C06": ("exploration", "5.6", "Generated authorization sequences through the real JSON endpoint (new, duplicate, single-field conflicts incl. key reuse, foreign/invalid signatures, banned ids, arbitrary finite float64 coordinates) interleaved with reports, rotations, restarts; equipment/ban reference model compared on snapshot, equipment list (bit exact), recent reports by key, sync by id, live statistics, plus the server's own CheckInvariants after every step. Half of the runs have a second real server (the two list each other): what srv0 accepts reaches the peer as a forwarded copy, the identical authorization is submitted to the peer first hand, and the peer's equipment list is compared with its own model, also after its restart.",
          "Fresh ids always carry fresh keys; coordinates whose sum overflows float64 are excluded because the repo's test-mode WattTime stub derives the impact rate from that sum."),
  "C07": ("exploration", "5.7", "1-4 batches of 2-8 concurrent registration request tasks (valid for three candidate keys, wrong signers, altered key, replays) released in seeded orders, with restarts in between, and equipment / server / migration authority attempts signed by the temp key, the server key, losing candidates and the winner before and after registration; compared with the sequential rules in execution order.",
          "The deterministic part orders whole requests (one critical section each); a second, auxiliary part fires 4-24 valid registrations for distinct keys on real parallel goroutines in a -race binary and requires exactly one success with memory, file and restart agreeing (sound, sampled, not exactly replayable) - a check-then-act gap introduced inside the registration has no yield site and is only visible there."),
 })
 
 CLAIMED.update({
- "C05": ("fault_enumeration", "5.5", "Crash = disk fork under the process-crash model: for each generated history (first start with self-generated keys, registration, authorizations incl. conflicts, reports, rotations incl. start-up catch-up) the data directory is copied at every observation point before/after each persistence write, between create and write of server.keys, at every boundary between operations, plus the present-but-empty states of server.keys and gcaPubKey.dat; every fork is booted twice as a fresh incarnation and must start, equal the model after exactly the operations whose write had completed, still accept the GCA's registration if none was durable, and be idempotent. Thorough enumerates every crash point of every history; quick a seeded half.",
+ "C05": ("fault_enumeration", "5.5", "Crash = disk fork under the process-crash model: for each generated history (first start with self-generated keys, registration, authorizations incl. conflicts, reports, rotations incl. start-up catch-up) the data directory is copied at every observation point before/after each persistence write, between create and write of server.keys, at every boundary between operations, plus the present-but-empty states of server.keys and gcaPubKey.dat; every fork is booted twice as a fresh incarnation and must start, equal the model after exactly the operations whose write had completed, still accept the GCA's registration if none was durable (the registration must show in the state and in the key file, and the new owner must be able to authorize a device), and be idempotent. Thorough enumerates every crash point of every history; quick a seeded half. A supplement (a third of the budget, skipped with a NOTE where ptrace is unavailable) runs the same worker under strace and cuts after every completed file-mutating system call below the server's directory, hooks or not.",
          "Process-crash model (completed system calls survive); power-loss effects are outside the property and not injected; real SIGKILL is replaced by disk forks at system-call boundaries (replayable)."),
 })
 
@@ -44,12 +44,12 @@ CLAIMED.update({
 })
 
 CLAIMED.update({
- "C13": ("exploration", "5.13 + 3.10", "Deterministic part: 10-40 operations with the rotation and impact loops running; every place where an operation or job runs between two critical sections is a yield site; at each park 0-2 interfering operations from the menu {ban, authorize, report, rotate, statistics GET with insert_false_negatives, server post, sync} are injected; model effects are applied at every quiescent point in exactly the order of the real critical sections; after every step every mutex must be free (leaked-lock probe), mutex deadlocks are caught by a real-time watchdog, panics in background jobs by the parent. Race part (auxiliary, not deterministic): the same world free-running with 8-48 goroutines per workload in a -race binary; any report with repository frames is a violation.",
-         "Interleavings only at the hooked critical-section boundaries (a gap introduced by a change has no yield site: only the race part can see it); the race part samples real schedules, adds order-independent oracles (slot values, registration count, consistency check) in strong runs and cannot be replayed exactly (re-run up to 10 times); a production-constant supplement interleaves bans, authorizations and reports with the weekly WattTime job."),
+ "C13": ("exploration", "5.13 + 3.10", "Deterministic part: 10-40 operations with the rotation and impact loops running; every place where an operation or job runs between two critical sections is a yield site; at each park 0-2 interfering operations from the menu {ban, authorize, report, rotate, statistics GET with insert_false_negatives, server post, sync} are injected; model effects are applied at every quiescent point in exactly the order of the real critical sections; after every step every mutex must be free (leaked-lock probe), mutex deadlocks are caught by a real-time watchdog, panics in background jobs by the parent. Supplements: the production-constant build (weekly and two-minute WattTime jobs doing real work) and a build against a copy of the repository with a yield point inserted in front of every mutex acquisition of the server package (gaps that a change introduces have a site there). Race part (auxiliary, not deterministic): the same world free-running with 8-48 goroutines per workload in a -race binary; any report with repository frames is a violation.",
+         "Interleavings at the hooked critical-section boundaries and, in the auto-yield supplement, in front of every lock acquisition of the server package (client code and code inside a critical section have no inserted sites: the race part covers those); the race part samples real schedules, adds order-independent oracles (slot values, registration count, consistency check) in strong runs and cannot be replayed exactly (re-run up to 10 times); a production-constant supplement interleaves bans, authorizations and reports with the weekly WattTime job."),
 })
 
 CLAIMED.update({
- "C14": ("exploration", "5.14", "Archive request tasks park at every gap between two files while a seeded write burst (new device + first report; registration + first device + report; rotation; reports) is injected; request bursts at one simulated instant probe the limiter. Every 200 reply is unzipped: exact names, record-aligned prefixes of the final files, dependency closure (reports verify under archived authorizations, authorizations under the archived GCA key, weekly records under server.pubkey), no private-key bytes in compressed or decompressed form, never more than the limit admitted inside one rate window.",
+ "C14": ("exploration", "5.14", "Archive request tasks park at every gap between two files while a seeded write burst (new device + first report; registration + first device + report; rotation; reports) is injected; nested, paired and staggered requests (two admitted at different instants, finished in a seeded order with a burst between them, then limit-1 immediate requests and one between the two admissions' window expiries) and request bursts at one simulated instant probe the limiter. Every 200 reply is unzipped: exact names, record-aligned prefixes of the final files, dependency closure (reports verify under archived authorizations, authorizations under the archived GCA key, weekly records under server.pubkey), no private-key bytes in compressed or decompressed form, never more than the limit admitted inside one rate window.",
          "Assumes one write call is atomic with respect to a concurrent read of the same file (README); bursts are injected between files, not inside a write."),
  "C08": ("exploration", "5.8", "Full world: the real client (own send loop and sync rounds), a meter appending readings, 1-3 real servers; every datagram independently dropped / duplicated / delayed / reordered, sync sessions refused / reset / cut / corrupted, servers down, optional rotation and restart; then faults stop, a sync round runs against reachable servers and the contacted server must hold a record for every still-acceptable slot of its window for which the device has a reading. At all times every acted-on datagram of a slot is byte-identical and no slot of the device is banned on any server.",
          "Readings fit 32 signed bits (the property's restriction); coverage is claimed for the server contacted by the final round; socket layer is the simulated fabric."),
@@ -64,8 +64,8 @@ CLAIMED.update({
  "C10": ("exploration", "5.10", "Server states with report sets at window edges (incl. banned slots), 0-6 authorized servers with location lengths 0-255 and ban flags, with/without a migration order, after 0-2 rotations; the genuine exchange between the real client parser and the real sync handler is recorded: an independent decoder of the documented layout must equal the server snapshot and the client's parse; unknown ids get the one-byte refusal. Tampering by the fabric and a rogue signer: single-bit flips (all bits of prefix, timestamp and signature in reach; thorough: every bit of the reply), truncation at field boundaries, extension, rewritten length prefixes, re-signing under every other key, timestamps at +-86400 (accepted) and +-86401 s (rejected), replies bound to another device, server entries and migration orders with missing or foreign GCA signatures; every tampered reply must be rejected with client state and files unchanged.",
          "The parser is exercised through its accessor (same code as the sync round uses); TCP is the simulated connection."),
  "C11": ("exploration", "5.11", "A real client with 1-5 servers, each honest (real node), down, flaky (refuse / reset / short read / corrupted reply) or rogue (harness answering with the server's real key: arbitrary byte strings of 0-65535 bytes, every length class around the fixed header sizes, correctly signed short replies, hundreds of entries, inconsistent location lengths, GCA-signed ban entries, un-ban replays, stale timestamps, foreign keys, finite stalls), all-banned and all-failed configurations, restarts, 100-400 ticks of the client's own cadence (overlapping rounds). At every quiescent point: client mutex free, ban knowledge monotone in state and file (also across restart), no dial to a known-banned server; afterwards new readings still produce datagrams and a new dial happens within 64 ticks.",
-         "A stall ends after finite simulated time; 'selects' is read as the choice made when dialling and at start-up."),
- "C17": ("exploration", "5.15", "Server side: 10-40 server-authorization posts (new, duplicate with changed ports/location, ban, un-ban attempt, bad/foreign signature, before registration) to 1-3 mutually forwarding real servers with peers up/down/failing; every post a server handles, direct or forwarded through the fabric, is applied to that server's list model and the served list compared after every post. Client side: 6-20 sync rounds against real servers (lists, GCA-signed migration orders) and a rogue holding a configured server's key (orders for another device, outer signature by a foreign or the new GCA, inner signatures by the old GCA, un-ban replays, changed ports), client restarts; an independent validity predicate and the signature rules give the expected identity and server map, compared with state, the three files and a restart.",
+         "A stall ends after finite simulated time; 'selects' is read as the choice made by the selection step (recorded right behind it) and at start-up."),
+ "C17": ("exploration", "5.15", "Server side: 10-40 server-authorization posts (new, duplicate with changed ports/location, ban, un-ban attempt, bad/foreign signature, before registration) to 1-3 mutually forwarding real servers with peers up/down/failing; every post a server handles, direct or forwarded through the fabric, is applied to that server's list model and the served list compared after every post. Client side: 6-20 sync rounds against real servers (lists, GCA-signed migration orders) and a rogue holding a configured server's key (orders for another device, outer signature by a foreign or the new GCA, inner signatures by the old GCA, un-ban replays, changed ports), client restarts; an independent validity predicate and the signature rules give the expected identity and server map, compared with state, the three files and a restart; a fifth of the rounds are an overlapping pair (the older round parked behind its merge, a ban posted, a complete younger round, the older one released).",
          "List replacement at migration and 'entry replaced by the GCA-signed ban entry' follow the documented behaviour; the rogue cannot forge GCA signatures."),
 })
 
@@ -74,8 +74,8 @@ CLAIMED.update({
          "Observed through DumpLogEntries only; ties in update time accept any consistent eviction."),
  "C19": ("exploration", "5.17", "The rate limiter with 1-64 caller tasks under the simulated clock over limits 1-10 and windows 1 ms - 1 h; arrival patterns tight loop, bursts, paced just below/above the window share, exact multiples of the window; callers park after waking so same-instant arrivals execute in a seeded order, every call is stamped with the exact simulated time; over-admission = limit+1 admissions spanning strictly less than the window, starvation = rejection with fewer than limit admissions in the closed preceding window (certain violations only).",
          "Real parallel callers of the limiter are exercised by C13's race mode through the archive endpoint."),
- "C20": ("exploration", "5.18", "Production-constant flavour (-tags verif): (a) the simulated clock walks from before genesis through slot edges, strides of hours to years and the end of the 32 bit second range (year 2159); at every visited instant CurrentTimeslot, UnixToTimeslot and TimeslotToUnix are compared with an integer model (round trip, monotonicity, pre-genesis refusal, genesis constant). (c) a production-constant server runs 2-4 simulated weeks with two devices reporting now+432 and now-432 every slot, the hourly rotation check delayed by up to one period, WattTime answering / slow / failing through the http.DefaultTransport seam: no report acceptable by its timeslot may fall outside the stored window, now-offset+432 stays below 4032, weeks archive contiguously, model agreement.",
-         "The pure conversions are exercised at visited instants plus listed boundaries (input enumeration, stated as such); the acceptance comparison at now<432 is covered by C01 in the test flavour, now near 2^32 is unreachable by real rotations."),
+ "C20": ("exploration", "5.18", "Production-constant flavour (-tags verif): (a) the simulated clock walks from before genesis through slot edges, strides of hours to years and the end of the 32 bit second range (year 2159); at every visited instant CurrentTimeslot, UnixToTimeslot and TimeslotToUnix are compared with an integer model (round trip, monotonicity, pre-genesis refusal, genesis constant). (c) a production-constant server runs 2-4 simulated weeks with two devices reporting now+432 and now-432 every slot, the hourly rotation check delayed by up to one period, WattTime answering / slow / failing through the http.DefaultTransport seam: no report acceptable by its timeslot may fall outside the stored window, now-offset+432 stays below 4032, weeks archive contiguously, model agreement; once per run the server is offline for 1-500 hours and the edge reports are sent ten minutes after the restart. A test-flavour supplement (settable protocol clock) checks the acceptance comparison at clocks 0..500, 2^31+-k and 2^32-1-k.",
+         "The pure conversions are exercised at visited instants plus listed boundaries (input enumeration, stated as such); the acceptance comparison at the ends of the 32 bit range runs in the test-flavour supplement (a server cannot reach clocks near 2^32 by real rotations, the clock is set there); the WattTime responder's answers are keyed by (run key, path, simulated time)."),
 })
 
 NOT_YET = {
